@@ -112,6 +112,21 @@ func genDeliveryCase(t *rapid.T, secure bool) DeliveryCase {
 			// that joins there (recorded in DESIGN.md), so the secure generator stays within the limit
 			a.Size = maxRTPPayload - 10 - rapid.IntRange(0, 8).Draw(t, "size_secure_max")
 		}
+		if (a.Kind == "write" || a.Kind == "burst") && rapid.IntRange(0, 4).Draw(t, "padded") == 0 {
+			// RTP padding; payload and padding together stay within what the writer accepts
+			a.Pad = rapid.SampledFrom([]int{1, 1, 2, 4, 7, 255}).Draw(t, "pad")
+			limit := maxRTPPayload
+			if secure {
+				limit -= 10
+			}
+			if a.Size+a.Pad > limit {
+				a.Size = limit - a.Pad
+			}
+		}
+		if a.Kind == "join" && rapid.IntRange(0, 2).Draw(t, "stream_goes_on_during_join") == 0 {
+			// the stream goes on between the reader's DESCRIBE and its SETUP (enough packets to cross a nearby wrap)
+			a.Between = rapid.IntRange(1, 40).Draw(t, "between")
+		}
 		a.Marker = rapid.Bool().Draw(t, "marker")
 		ts += uint32(rapid.IntRange(0, 9000).Draw(t, "ts_step"))
 		a.TS = ts
